@@ -23,7 +23,7 @@ ATOMS = ["a", " a", "a ", " a ", "\na", "a\nb", "k=v", " k = v ", "k=\nv", "2=v"
          # names Lua's tonumber() accepts but the argument rule keeps as strings
          "0=z", "-1=n", "1e1=e", "0x10=h", "1.0=f",
          # a positional value with a line made of blanks only; names with a quote / an ampersand / a run of blanks
-         " \na", "a\n \nb", "1001=big", "a  b=c"]
+         " \na", "a\n \nb", "1001=big", "a  b=c", "a'b=c", "a&b=d"]
 SMALL = ["a", " b ", "k=v", "2=w", "\nc"]
 ECHO = r"""
 local e = {}
@@ -117,11 +117,13 @@ def check(ctx, lst):
         import re as _re
         blank_line = any(_re.search(r"(^|\n)[ \t]+(\n|$)", a) for a in lst if "=" not in a)
         out.append(("parser_view_blank_only_line" if blank_line else "parser_view_equals_rule", js(v1), js(r)))
+    # known finding: the three places use different heuristics for which characters may occur in a name
+    odd = "_name_with_quote_or_ampersand" if any(("=" in a and any(ch in a.split("=", 1)[0] for ch in "'&[]")) for a in lst) else ""
     if v2 != r:
-        out.append(("expander_view_equals_rule", js(v2), js(r)))
+        out.append(("expander_view_equals_rule" + odd, js(v2), js(r)))
     if v3 != r:
         big = any(isinstance(k, int) and k > 1000 for k in r)   # deliberate clamp of numbered names above 1000 (with a warning)
-        out.append(("lua_view_index_above_1000" if big else "lua_view_equals_rule", js(v3), js(r)))
+        out.append(("lua_view_index_above_1000" if big else "lua_view_equals_rule" + odd, js(v3), js(r)))
     return out
 
 
